@@ -2,7 +2,7 @@ SPECIFICATION Spec
 CONSTANTS
  MaxTime = 6
  Deadlines = {1, 3}
- Urgent = TRUE
+ Urgent = FALSE
 INVARIANTS TypeOK NoOperationOutlivesItsBound OkOnlyWithAnAnswer
 PROPERTIES NothingPendsOnAClosedConnectionForLong SilentPeerNeverAcks
 CHECK_DEADLOCK FALSE
